@@ -109,6 +109,8 @@ TD_H = {
 
     "c11_utf8_cut_sym_4": ("UTF-8 tendril of 4 symbolic well-formed bytes, symbolic cut n: try_pop_front(n)/try_pop_back(4-n)/try_subtendril(0,n) succeed exactly on character boundaries and leave valid UTF-8", 600, "q"),
     "c11_utf8_cut_sym_6": ("as c11_utf8_cut_sym_4 with 6 bytes", 2400, "t"),
+    "c11_wtf8_join_inline": ("WTF-8 tendril (1 symbolic byte + symbolic lead surrogate) pushed with a symbolic trail surrogate: the pair is rejoined into the 4-byte character (Fixup drop_left/drop_right/insert), result inline; a live clone keeps its bytes", 600, "q"),
+    "c11_wtf8_join_grow": ("as c11_wtf8_join_inline with 5 symbolic bytes before the lead surrogate: 8 inline bytes become 9 on the heap (the heap branch of push_bytes_without_validating with drop_left = 3)", 900, "q"),
 }
 
 
@@ -116,7 +118,7 @@ def c11(out, tier):
     hs = [H(n, cap, d, "bytes symbolic, lengths/offsets as named", crate="td") for n, (d, cap, t) in TD_H.items() if t == "q" or tier == "thorough"]
     K.HARNESS_MOD = "ops"
     K.run_all(out, "td", hs, TD_SRC)
-    out.assumptions += ["formats Bytes and UTF8 only (the two the parsers use); ASCII/Latin1/WTF8 outside",
+    out.assumptions += ["formats Bytes and UTF8 (the two the parsers use) and, for the surrogate-pair fix-up of push only, WTF8 through the unvalidated constructors; ASCII/Latin1 outside",
                         "histories are the listed one-to-three-operation recipes from each representation (inline <= 8 bytes, owned, shared, shared with offset, adjacent shared pair); contents symbolic, lengths concrete",
                         "alloc::fmt::format stubbed; nothing is mem::forget-ed, so every harness also runs the real drop glue"]
     return out.finish("model_checking", {
@@ -128,7 +130,7 @@ def c11(out, tier):
 
 def c12(out, tier):
     orders = ["c12_drop_order_%d" % i for i in range(6)]
-    names = orders + ["c12_clear_clone_drop", "c12_reserve_clone_drop", "c11_clone_pop_owned", "c11_pops_owned", "c11_send_owned"] + (["c11_clone_push_owned", "c11_sub_shared"] if tier == "thorough" else [])
+    names = orders + ["c12_clear_clone_drop", "c12_reserve_clone_drop", "c11_clone_pop_owned", "c11_pops_owned", "c11_send_owned", "c11_wtf8_join_grow"] + (["c11_clone_push_owned", "c11_sub_shared"] if tier == "thorough" else [])
     descs = dict({k_: v for k_, v in TD_H.items()})
     descs["c12_clear_clone_drop"] = ("owned 12-byte tendril cleared (stays on the heap with length 0), cloned, original dropped, clone pushed and dropped", 900, "q")
     descs["c12_reserve_clone_drop"] = ("with_capacity(16) tendril holding 3 bytes (heap, short), cloned, both dropped", 1200, "q")
@@ -1076,6 +1078,13 @@ def tree_units(prop, tier):
         add("long names: frameset / noframes / template / head / body / html as literal tags around symbolic text",
             ["<html>", W1, "<head>", W1, "</head>", W1, "<body>", W1, "</body>", W1, "</html>", W1])
         add("frameset document with symbolic text", ["<frameset>", W1, "</frameset>", W1, "<noframes>", W1, "</noframes>", W1, "</html>", W1, "<noframes>x</noframes>"])
+        # a frameset that replaces a body whose formatting element stays on the list of active formatting elements: the modes after the
+        # frameset process whitespace / doctype / <html> by the in-body rules ("reconstruct the active formatting elements")
+        stale = ["b", "a", "nobr", "font"] if q else ["b", "a", "nobr", "font", "i", "em", "big", "code", "s", "small", "strike", "strong", "tt", "u"]
+        for f_ in stale:
+            add("stale formatting <%s>: frameset replaces body, </frameset></html>, symbolic text" % f_, ["<%s>" % f_, "<frameset></frameset></html>", W1, "<!--c-->"])
+            add("stale formatting <%s>: frameset replaces body, symbolic text inside and after the frameset" % f_, ["<%s>" % f_, "<frameset>", W1, "</frameset>", W1])
+        add("stale formatting (symbolic 1-letter start tag): frameset replaces body, </html>, symbolic text", ["<", N1, ">", "<frameset></frameset></html>", W1])
     elif prop == "C18":
         cs = ["<b><i>", "<table><tr><td>", "<form><p>", "<template><b>", "<a><p>", "<select><option>", "<svg><g>", "<head>", "<table>x", "<b><table>", "<ul><li><em>",
               "<p><nobr>", "<table><caption><b>", "<frameset>"]
@@ -1097,6 +1106,15 @@ def tree_units(prop, tier):
                 if q and (fi + si + C.seed()) % 2:
                     continue
                 add("%r %r script (may detach) then closers, text, start tag" % (f_, op_), [f_, op_, "<script>s</script>", cl_, W1, "<", N1, ">y"], {"script_detach": True}, maxp=3000)
+        # the head element pointer: a script running after </head> (or inside head) may detach <head>; a head-only start tag met in the
+        # "after head" mode re-opens that very element (push, in-head rules, remove from the stack)
+        hts = ["link", "title", "template", "script", "meta", "style", "base", "noframes"]
+        for hi, t_ in enumerate(hts):
+            if q and hi >= 4 and (hi + C.seed()) % 2:
+                continue
+            add("head pointer: <head></head> script (may detach) then <%s>, text, start tag" % t_, ["<head></head>", "<script>s</script>", "<%s>" % t_, W1, "<", N1, ">"], {"script_detach": True}, maxp=3000)
+            add("head pointer: script inside head (may detach), </head>, <%s>, text" % t_, ["<html><head>", "<script>s</script>", "</head>", W1, "<%s>" % t_, W1], {"script_detach": True}, maxp=3000)
+        add("head pointer: chunk boundary after </head>, symbolic start tag, <link>", ["<head></head>", "<", N2, ">", "<link>", W1], {"chunks": [13, 400]})
         for body in ("<form><p>", "<div><form></div>", "<form><table>", "<template><form>"):
             add("%r script (may detach) then form controls" % body, [body, "<script>s</script>", "<input>", "</", N1, ">", "<button>", W1], {"script_detach": True}, maxp=3000)
         # the form owner handed to a fragment parse is referenced by nothing else
@@ -1193,6 +1211,8 @@ def tree_check(out, tier, prop):
     if not tree_self_validate(out, TC, mir, ent, exe, 150 if tier == "quick" else 1500, C.seed()):
         return finish_mc(out, 0, 0, 0, ["self-validation failed"])
     units = tree_units(prop, tier)
+    if os.environ.get("VERIF_UNITS"):            # development aid: run only the templates whose name contains the substring
+        units = [u for u in units if os.environ["VERIF_UNITS"] in u["name"]]
     if prop == "C20":
         from mirsym import build as _b
         rc_mir, _, rc_dt = _b.dump_mir("markup5ever_rcdom")
@@ -1233,7 +1253,7 @@ def tree_finish(out, TR, prop, res, exe, exe_rel):
         for e in r["errors"]:
             out.inconclusive.append("%s: %s" % (r["unit"], e[-300:]))
         for v in r[prop]:
-            key = "%s|%s|%s" % (prop, v["name"], v["what"][:50])
+            key = "%s|%s|%s" % (prop, v["name"], v["what"][:90])
             if key in seen:
                 continue
             seen.add(key)
